@@ -82,7 +82,7 @@ steps:
 var c09chars = []string{"a", "B", "0", "1", " ", "\t", "\n", "\r", ":", "-", "?", "#", "&", "*", "!", "|", ">", "'", "\"", "%", "@", "`",
 	"{", "}", "[", "]", ",", ".", "~", "$", "\\", "/", "=", "<", "+", "_", "é", "日", "\u2028", "😀", "\u00a0"}
 
-var c09lookalikes = []string{"yes", "no", "on", "off", "y", "n", "true", "True", "TRUE", "false", "null", "Null", "NULL", "~", "", "0x1f", "0o17", "017", "1_000", "1e3", ".5", "5.", "+1", "-0",
+var c09lookalikes = []string{"\r\r\n", "a\r\r\nb", "a\r\n\r\nb", "\r\n", "a\n\r", "yes", "no", "on", "off", "y", "n", "true", "True", "TRUE", "false", "null", "Null", "NULL", "~", "", "0x1f", "0o17", "017", "1_000", "1e3", ".5", "5.", "+1", "-0",
 	".inf", "-.inf", ".nan", ".NaN", "2002-08-15", "2002-08-15T01:02:03Z", "2002-08-15 01:02:03", "<<", "1:20", "1:20:30", "=", "!!str", "!tag x", "&a", "*a", "&a b", "- a", "a: b", "a #c", "#c", "? a", "| a", "> a",
 	"@a", "`a", "%a", "{a}", "[a]", "a,b", " lead", "trail ", "\ttab", "a\nb", "a\n", "\na", " \na", "\n a", "a\r\nb", "\ra", "''", "a\\nb", "---", "...", "--- a", "k: v\no: x", "a\n\n\nb", "a\n ", "  ", "\n",
 	"é日😀", " x", "x ", "\ufeffbom", "a b", "1.0", "1.50", "007", "0b11", "1e-3", "12345678901234567890", "0.1e+2", "-", "?", ":", "- ", ": ", "a:", ":a", "#", "a#", "!", "!!", "&", "*", "|", ">", "%", "@", "`", "\"", "'", "\\", "\\\"", "{", "}", "[", "]", ","}
@@ -285,8 +285,9 @@ func c09strings(w *report.W) {
 		w.Sample(c09strCase{"rich", "$.steps[0].env.B", false, "a: b", "yaml-block"})
 	}
 
-	// determinism of marshalling under every map iteration order
+	// determinism of parsing and of marshalling under every map iteration order
 	defer func() { verifseam.OpenMaxLen = 0; verifseam.SetChooser(nil) }()
+	c09parseSeam(w, bases)
 	for _, bname := range []string{"minimal", "typical", "rich"} {
 		if !w.Take("seam-marshal|" + bname) {
 			continue
@@ -339,6 +340,68 @@ func c09strings(w *report.W) {
 			}
 		}
 	}
+}
+
+// c09mixedDoc: steps that carry keys of several kinds (decided by rule, not by any iteration order), legacy plugins
+// mapping, several matrix dimensions, nested unknown mappings
+const c09mixedDoc = `
+env: {B: "1", A: "2", C: "3"}
+zz: {y: 1, x: {b: 2, a: 3}}
+steps:
+  - {wait: ~, commands: [a, b], trigger: t, group: g}
+  - {block: b, plugins: {q#v1: {k: v}, p#v1: ~}, input: i}
+  - {group: g, steps: [], waiter: ~, manual: m}
+  - {trigger: t, group: ~, steps: [{input: i, block: b, type: wait}]}
+  - command: c
+    matrix: {setup: {os: [l, w], arch: [x], zz: [q]}, adjustments: [{with: {os: m, arch: y, zz: r}, skip: true}]}
+    env: {Z: z, Y: y, X: x}
+    agents: {queue: q, os: l, arch: x}
+`
+
+// c09parseSeam: Parse under every explored map iteration order gives the same pipeline.
+func c09parseSeam(w *report.W, bases map[string]*docgen.N) {
+	texts := map[string]string{"mixed-kinds": c09mixedDoc}
+	for _, bname := range []string{"minimal", "typical", "rich"} {
+		texts[bname], _ = docgen.Render(bases[bname], "yaml-block")
+	}
+	for name, text := range texts {
+		if !w.Take("seam-parse|" + name) {
+			continue
+		}
+		p, err := pipeline.Parse(strings.NewReader(text))
+		if err != nil && !warning.Is(err) {
+			w.HarnessError("parse-seam doc %s: %v", name, err)
+			return
+		}
+		ref, _ := json.Marshal(p)
+		refKinds := stepKinds(p.Steps)
+		verifseam.OpenMaxLen = 4
+		ex := &explore.Explorer{Bound: 2, MaxExec: 200000}
+		ex.Run = func(x *explore.X) bool {
+			verifseam.SetChooser(x.Choose)
+			p2, err2 := pipeline.Parse(strings.NewReader(text))
+			verifseam.SetChooser(nil)
+			if err2 != nil && !warning.Is(err2) {
+				w.Violate(report.Violation{Kind: "seam-parse-nondeterministic", Case: name + " schedule " + x.String(), Detail: "Parse fails under this iteration order: " + err2.Error(), Size: 100 + len(x.Choices)})
+				return false
+			}
+			out, _ := json.Marshal(p2)
+			if k := stepKinds(p2.Steps); k != refKinds || !bytes.Equal(out, ref) {
+				w.Violate(report.Violation{Kind: "seam-parse-nondeterministic", Case: name + " schedule " + x.String(),
+					Detail: "the parsed pipeline depends on a map iteration order: step kinds " + k + " vs " + refKinds + "; " + firstDiff(string(ref), string(out)), Size: 100 + len(x.Choices)})
+				return false
+			}
+			return true
+		}
+		ex.Explore()
+		w.P.Evaluations += ex.Stats.Executions
+		w.P.Transitions += ex.Stats.Executions
+		w.Count("seam_parse_schedules", ex.Stats.Executions)
+		if ex.Stats.Capped {
+			w.Inexhaustive("seam parse schedule cap (" + name + ")")
+		}
+	}
+	verifseam.OpenMaxLen = 0
 }
 
 func contains(l []string, s string) bool {
